@@ -105,12 +105,14 @@ static void on_alarm(int) { static const char m[] = "E 0 0 HANG wallclock\n"; ev
 // ------------------------------------------------------------------ driver log capture
 extern "C" int __real_debug_message(const char *fmt, ...);
 static void sim_walk_now();
+static void sim_memstat();
 extern "C" int __wrap_debug_message(const char *fmt, ...) {
   char msg[8192];
   va_list ap; va_start(ap, fmt); vsnprintf(msg, sizeof msg, fmt, ap); va_end(ap);
   if (msg[0] == '@' && msg[1] == 'R' && msg[2] == ' ') {
     ev("R %s", msg + 3); S.stats["rec"]++;
     if (!strncmp(msg + 3, "WALK", 4)) sim_walk_now();   // structure walk requested from LPC (possibly in the middle of a hook)
+    if (!strncmp(msg + 3, "MEMSTAT", 7)) sim_memstat();  // C06: driver allocation counters right now
     return 0;
   }
   for (char *p = msg; *p; p++) if (*p == '\n' || *p == '\r') *p = ' ';
@@ -320,6 +322,17 @@ static void c08_walk() {
 }
 
 static void sim_walk_now() { if (c08_walk_on) c08_walk(); }
+extern "C" size_t __sanitizer_get_current_allocated_bytes();
+extern "C" { extern int num_arrays; extern size_t total_array_size; extern int num_mappings; extern int total_mapping_nodes; extern int tot_alloc_sentence; }
+static void sim_memstat() {
+  long nobj = 0, ndest = 0;
+  for (object_t *o = obj_list; o; o = o->next_all) nobj++;
+  for (object_t *o = obj_list_destruct; o; o = o->next_all) ndest++;
+  if (evbuf.capacity() < (1 << 18)) evbuf.reserve(1 << 18);
+  ev("mem arrays=%d arrsz=%zu maps=%d nodes=%d strs=%d strbytes=%zu astr=%d abytes=%zu objs=%zu progs=%zu sent=%d live=%ld dlist=%ld heap=%zu",
+     num_arrays, total_array_size, num_mappings, total_mapping_nodes, num_distinct_strings, bytes_distinct_strings, allocd_strings, allocd_bytes,
+     tot_alloc_object, total_num_prog_blocks, tot_alloc_sentence, nobj, ndest, __sanitizer_get_current_allocated_bytes());
+}
 void dump_users(const char *when);
 static long dump_users_every = 0;
 void invariants_at_cycle() {
